@@ -46,7 +46,18 @@ func realExport(pdf []byte) (fg *form.FormGroup, err error) {
 			err = fmt.Errorf("panic: %v", p)
 		}
 	}()
-	return api.ExportForm(bytes.NewReader(pdf), "x.pdf", conf())
+	fg, err = api.ExportForm(bytes.NewReader(pdf), "x.pdf", conf())
+	if err == nil && len(fg.Forms) > 0 {
+		// exportPageFields ranges over a map: fix the order so that a seed determines the run
+		f := &fg.Forms[0]
+		sort.SliceStable(f.TextFields, func(i, j int) bool { return idNum(f.TextFields[i].ID) < idNum(f.TextFields[j].ID) })
+		sort.SliceStable(f.DateFields, func(i, j int) bool { return idNum(f.DateFields[i].ID) < idNum(f.DateFields[j].ID) })
+		sort.SliceStable(f.CheckBoxes, func(i, j int) bool { return idNum(f.CheckBoxes[i].ID) < idNum(f.CheckBoxes[j].ID) })
+		sort.SliceStable(f.RadioButtonGroups, func(i, j int) bool { return idNum(f.RadioButtonGroups[i].ID) < idNum(f.RadioButtonGroups[j].ID) })
+		sort.SliceStable(f.ComboBoxes, func(i, j int) bool { return idNum(f.ComboBoxes[i].ID) < idNum(f.ComboBoxes[j].ID) })
+		sort.SliceStable(f.ListBoxes, func(i, j int) bool { return idNum(f.ListBoxes[i].ID) < idNum(f.ListBoxes[j].ID) })
+	}
+	return fg, err
 }
 
 // realFill returns the output and "ok" | "noop" | "err" | "panic".
@@ -366,7 +377,11 @@ func mutateValid(f *form.Form, flipLocks bool, force string) mutation {
 		flip(&t.Locked)
 	}
 	for _, t := range f.CheckBoxes {
-		t.Value = r.Rand.Intn(2) == 0
+		if force != "" {
+			t.Value = !t.Value
+		} else {
+			t.Value = r.Rand.Intn(2) == 0
+		}
 		flip(&t.Locked)
 	}
 	for _, t := range f.RadioButtonGroups {
@@ -462,14 +477,35 @@ func mutateInvalid(f *form.Form) {
 			t.Value = "31.31.31"
 		}
 	}
-	// entries that match by name only / not at all
-	for _, t := range f.TextFields {
-		switch r.Rand.Intn(6) {
+	// entries that match by name only / by id only / not at all
+	rekey := func(id, name *string) {
+		switch r.Rand.Intn(8) {
 		case 0:
-			t.ID = "9999"
+			*id = "9999"
 		case 1:
-			t.ID, t.Name = "9999", "nobody"
+			*id, *name = "9999", "nobody"
+		case 2:
+			*name = "nobody"
 		}
+	}
+	for _, t := range f.TextFields {
+		rekey(&t.ID, &t.Name)
+	}
+	for _, t := range f.DateFields {
+		rekey(&t.ID, &t.Name)
+	}
+	for _, t := range f.CheckBoxes {
+		rekey(&t.ID, &t.Name)
+		t.Value = !t.Value
+	}
+	for _, t := range f.RadioButtonGroups {
+		rekey(&t.ID, &t.Name)
+	}
+	for _, t := range f.ComboBoxes {
+		rekey(&t.ID, &t.Name)
+	}
+	for _, t := range f.ListBoxes {
+		rekey(&t.ID, &t.Name)
 	}
 }
 
@@ -713,7 +749,7 @@ func scenario(origin string, pdf []byte, mutate bool) {
 							continue // unlock-and-fill: not covered by the property
 						}
 						if g3[id].value != e.value {
-							r.OracleFail("second-fill-changes-value:"+typeName[e.tag], input(origin, after, jv, map[string]any{"field": id}),
+							r.OracleFail(pick(unnamed[id], "second-fill-changes-value:")+typeName[e.tag], input(origin, after, jv, map[string]any{"field": id}),
 								fmt.Sprintf("field %s: %q after the first fill, %q after the second", id, e.value, g3[id].value))
 						} else {
 							r.OracleOK()
@@ -783,6 +819,34 @@ func editedForms(pdf []byte) [][]byte {
 	// radio groups with an explicit /Opt array: V and DV become indices
 	edit(func(ctx *model.Context, d types.Dict, ft string, ff int) bool {
 		kids := d.ArrayEntry("Kids")
+		if ft == "Btn" && len(kids) == 0 && ff&ffPushbutton == 0 {
+			// check box whose on state is not called Yes
+			ap, err := ctx.DereferenceDict(d["AP"])
+			if err != nil || len(ap) == 0 {
+				return false
+			}
+			done := false
+			for _, key := range []string{"N", "D"} {
+				n, err := ctx.DereferenceDict(ap[key])
+				if err != nil || len(n) == 0 {
+					continue
+				}
+				if v, ok := n["Yes"]; ok {
+					delete(n, "Yes")
+					n["On"] = v
+					done = true
+				}
+			}
+			if !done {
+				return false
+			}
+			for _, key := range []string{"V", "DV", "AS"} {
+				if s := d.NameEntry(key); s != nil && *s == "Yes" {
+					d[key] = types.Name("On")
+				}
+			}
+			return true
+		}
 		if ft != "Btn" || len(kids) < 2 {
 			return false
 		}
